@@ -40,7 +40,9 @@ RULE = ("cases = api {attr.s, define, frozen} x auto_detect {unset,T,F} x writte
         "thorough: one exhaustive block per group (flag(s) x every subset of the group's names in the body x api x "
         "auto_detect x slots x frozen x base-defined subsets x attrs base) + random cross-group combinations; quick: a "
         "seeded sample of every block + cross-group combinations. Every case additionally carries a HISTORY: the same "
-        "decorator object is first applied to k in {0,1,2} other classes with different own-method subsets. non-trivial = class was built and at least one watched "
+        "decorator object is first applied to k in {0,1,2} other classes with different own-method subsets; and body entries "
+        "come in two kinds: a fresh user object, or an ALIAS of the object the bases provide under that name (a third of the "
+        "entries of every case + an exhaustive block over every group name x api x auto_detect x slots x bases). non-trivial = class was built and at least one watched "
         "name is the user's own object or attrs-made; distinct = distinct JSON case")
 ASSUMPTIONS = [
     "CPython's class creation rule '__eq__ in the namespace and no __hash__ => __hash__ = None' is a 1-line model function, diff-tested here",
@@ -48,6 +50,12 @@ ASSUMPTIONS = [
     "a function counts as attrs-generated if its code object comes from '<attrs generated ...' or from a file of the attr package; "
     "`gen` additionally requires that it passes a behaviour probe (repr string, ==/!= of equal/unequal instances, ordering, hash "
     "of equal instances, __init__/__attrs_init__ store the arguments, getstate/setstate + pickle round trip, hook runs on assignment)",
+    "aliased body entries (cfg.alias, harness-only): a body name bound to the very object the bases already provide under it "
+    "(`__hash__ = object.__hash__`, `__repr__ = Base.__repr__`, `__setattr__ = object.__setattr__`, ...) is an OWN entry like "
+    "any other for the model; excluded because they cannot be told from attrs' own writes: aliases of None, of attrs' shared "
+    "`__ne__`, and of the frozen `__setattr__`/`__delattr__` (below a frozen base an aliased `__setattr__` would also make "
+    "`cls.__setattr__ is _frozen_setattrs` true -- a corner the model does not cover); a kept `__hash__` must also be in force "
+    "(`type(inst).__hash__` is the user's object and `hash(inst)` goes through it)",
     "decorator-object history: the earlier classes are plain classes with one field and user objects bound to the listed "
     "names; an earlier class the decorator rejects (error) stays in the history; the model is a function of the class alone",
     "one own field x (plus an inherited field y below an attrs base); the decision table does not depend on the fields except "
@@ -90,6 +98,9 @@ _MISSING = object()
 SYNTH_MOD = "c14_synth_module"
 
 HOOKLOG: list = []
+# objects attrs itself installs on many classes: a body entry aliasing one of them could not be told from attrs' own write
+_SHARED_ATTRS_OBJECTS = [getattr(_attr_make, n) for n in ("__ne__", "_frozen_setattrs", "_frozen_delattrs")
+                         if hasattr(_attr_make, n)]
 
 
 def _hook(inst, a, v):
@@ -291,13 +302,23 @@ def build(case):
         hooks_ns["__attrs_pre_init__"] = _pre_init
     if ic["post"]:
         hooks_ns["__attrs_post_init__"] = _post_init
+    # ALIASED body entries: the body binds the name to the very object the bases already provide under it
+    # (`__hash__ = object.__hash__`, `__repr__ = Base.__repr__`, ...): still the class's OWN entry
+    alias = {}
+    for n in cfg.get("alias") or []:
+        if n in case["body"] and n not in alias:
+            inh = getattr(base, n, _MISSING)
+            if inh is not _MISSING and callable(inh) and not any(inh is sh for sh in _SHARED_ATTRS_OBJECTS):
+                alias[n] = inh
     if cfg.get("cell"):
         # a real `class` statement whose methods reference `__class__`: the compiler gives each of them a closure
         # cell holding the class, which the slotted rebuild has to rewrite *in place* (same function objects)
         impl = {n: _user_obj(n, "USER") for n in case["body"]}
         lines = ["class C(Base):"]
         for n in case["body"]:
-            if n == "__match_args__":
+            if n in alias:
+                lines.append(f"    {n} = _alias[{n!r}]")
+            elif n == "__match_args__":
                 lines.append(f"    {n} = _impl[{n!r}]")
             elif n in ("helper", "_private", "__copy__"):
                 deco_, arg = {"helper": ("classmethod", "cls"), "_private": ("property", "self"),
@@ -308,12 +329,12 @@ def build(case):
         lines.append("    x: int = _field" if case["api"] != "attrS" else "    x = _field")
         for hn in hooks_ns:
             lines.append(f"    {hn} = _hooks[{hn!r}]")
-        g = {"Base": base, "_impl": impl, "_field": fld, "_hooks": hooks_ns, "__name__": SYNTH_MOD}
+        g = {"Base": base, "_impl": impl, "_alias": alias, "_field": fld, "_hooks": hooks_ns, "__name__": SYNTH_MOD}
         exec("\n".join(lines), g)  # noqa: S102
         cls = g["C"]
         user = {n: cls.__dict__[n] for n in case["body"]}
     else:
-        user = {n: _user_obj(n, "USER") for n in case["body"]}
+        user = {n: (alias[n] if n in alias else _user_obj(n, "USER")) for n in case["body"]}
         ns = dict(user)
         ns["__module__"] = SYNTH_MOD
         ns["x"] = fld
@@ -487,7 +508,7 @@ def _probe_init(name, fn, C, fields, case, cache_hash):
                       + (["post"] if ic["post"] else []))
         vals = list(args[:len(fields) - 1]) + [want_x]
         ref_trace = trace
-        if not _is_attrs_function(C.__dict__.get("__setattr__")):
+        if C.__dict__.get("__attrs_own_setattr__") is not True:
             # no hook __setattr__ of the class's own: plain assignments are what attrs generates, and a hook
             # __setattr__ *inherited* past a plain class (K6's shape, C06) then sees them -- not this property's
             # business; the comparison with the twin below still covers the full trace
@@ -508,6 +529,14 @@ def _classify(name, v, C, user, fields, case, cache_hash):
     if v is _MISSING:
         return "absent"
     if name in user and v is user[name]:
+        if name == "__hash__" and callable(v):
+            # kept means found on the class AND in force: instances hash through the user's object
+            try:
+                inst = _inst(C, fields, list(range(1, len(fields) + 1)), cache_hash)
+                if type(inst).__hash__ is not v or hash(inst) != v(inst):
+                    return "other"
+            except BaseException:  # noqa: BLE001
+                return "other"
         return "user"
     if v is None:
         return "pyNone"
@@ -632,6 +661,8 @@ def _mk_real(block, **kw):
                      ("kw_only", (h >> 9) % 4 == 1)):
         if key not in explicit:
             cfg[key] = val
+    if "alias" not in explicit:
+        cfg["alias"] = [n for i, n in enumerate(c["body"]) if (h >> (4 + i % 20)) % 3 == 0]
     if "history" not in kw:
         c["history"] = _history(c["body"], h >> 3)
     cfg.setdefault("hist_base", "same" if (h >> 13) % 3 else "root")
@@ -739,6 +770,17 @@ def block_attrs_init():
                       oFrozen=fr, fieldValidator=fv, onSetattr=on, attrsBase=ab, cfg=dict(ic))
 
 
+def block_alias():
+    """a body entry that is the very object the bases provide under that name, for every group name (and next to
+    an own or generated __eq__): own for detection, kept by identity and in force, in both builds"""
+    for n, api, ad, sl, ab, mid, extra, hf in itertools.product(
+            HIST_NAMES, APIS, OB3, OB3, ["none", "vanilla", "hooked"], [None, [], "same"], [[], ["__eq__"]],
+            ["unset", "f"]):
+        body = [n] + [e for e in extra if e != n]
+        yield _mk("alias", api=api, oAutoDetect=ad, oSlots=sl, attrsBase=ab, plainMid=mid is not None,
+                  baseDefines=[n] if mid == "same" else [], body=body, fUnsafeHash=hf, cfg={"alias": [n]})
+
+
 def block_gss():
     yield from block_simple("gss", "fGss", GROUPS["gss"])
 
@@ -777,7 +819,7 @@ def block_other():
 
 
 BLOCKS = [block_repr, block_str, block_cmp, block_order_subsets, block_eq_inherit, block_hash, block_init,
-          block_attrs_init, block_gss,
+          block_attrs_init, block_alias, block_gss,
           block_match, block_setattr, block_exc, block_other]
 
 
@@ -805,7 +847,8 @@ def random_case(rng):
             cfg={"base_slots": rng.random() < 0.5, "cell": rng.random() < 0.4, "converter": rng.random() < 0.5,
                  "pre": rng.random() < 0.25, "post": rng.random() < 0.25,
                  "dflt": rng.choice(["none", "none", "value", "factory"]), "kw_only": rng.random() < 0.2,
-                 "hist_base": rng.choice(["same", "same", "root"])},
+                 "hist_base": rng.choice(["same", "same", "root"]),
+                 "alias": [n for n in body if rng.random() < 0.3]},
             history=[rng.choice([_opposite(body, False), _opposite(body, True),
                                  rng.sample(HIST_NAMES, rng.choice([0, 1, 3, 6]))])
                      for _ in range(rng.choice([0, 0, 1, 1, 2]))])
@@ -816,7 +859,7 @@ def gen_cases(tier, rng):
     if tier == "thorough":
         for blk in BLOCKS:
             yield from blk()
-        for _ in range(120000):
+        for _ in range(90000):
             yield random_case(rng)
         return
     # quick: a seeded sample of every block, then cross-group combinations
@@ -860,6 +903,9 @@ def shrink(case):
     for k in ("base_slots", "cell", "converter", "pre", "post", "kw_only"):
         if (case.get("cfg") or {}).get(k):
             yield dict(case, cfg=dict(case["cfg"], **{k: False}))
+    al = (case.get("cfg") or {}).get("alias") or []
+    for i in range(len(al)):
+        yield dict(case, cfg=dict(case["cfg"], alias=al[:i] + al[i + 1:]))
     if (case.get("cfg") or {}).get("dflt", "none") != "none":
         yield dict(case, cfg=dict(case["cfg"], dflt="none"))
 
@@ -903,9 +949,10 @@ LEVEL_TEXT = (
     "C14_K8_repaired, C14_reset_still_happens (regression theorems on the former witness). The checks of attrs.wrap are proved "
     "to fire exactly on the documented error conditions (Proofs/C14Err). OBSERVED, not proved: that /repo behaves like the "
     "model -- differential correspondence comparing, for every watched name, what C.__dict__ holds (identity with the "
-    "user's object -- functions, functions with a __class__ cell, classmethod/property/staticmethod objects, a tuple --, "
+    "user's object -- functions, functions with a __class__ cell, classmethod/property/staticmethod objects, a tuple, aliases of "
+    "inherited objects such as object.__hash__ / Base.__repr__ --, "
     "attrs-generated and passing a behaviour probe, None, object.__setattr__, frozen setattr/delattr, generated "
-    "__match_args__) and the kind of definition error; thorough tier: exhaustive per-group blocks (about 2.5e5 cases) + 1.2e5 "
+    "__match_args__) and the kind of definition error; thorough tier: exhaustive per-group blocks (about 2.5e5 cases) + 9e4 "
     "random cross-group cases; quick: 650 sampled cases per block + 5000 random. HISTORY: every class is decorated by a "
     "decorator OBJECT (attr.s(...), define(...), frozen(...) called once) that was first applied to 0, 1 or 2 other classes "
     "whose bodies bind other names (the complement of the observed class's group names, and a pseudo-random subset; below "
